@@ -144,6 +144,11 @@ def cases(shard, tier):
             # objects added before must all stay defined and referable
             yield {'across_sets': k, 'order': 'AB', 'then_rejected_name': True}
             yield {'across_sets': k, 'order': 'A', 'then_rejected_name': True}
+        # objects first, then the logical file's first add_origin is refused, then an origin with ANOTHER reference than
+        # the refused one would have got: every object must belong to an origin that is in the file
+        for bad in ('creation_time', 'well_id', 'name'):
+            for ref in (None, 3):
+                yield {'refused_first_origin': bad, 'retry_ref': ref}
         return
     if shard.get('kind') == 'reidentify':
         # the identity (origin reference) of 1..2 objects is changed between two writes of the same file object:
@@ -203,6 +208,20 @@ def caller_list_spec(case):
         else:
             ops.append(S.op_add(kind, h, f'REFERRER-{step}', **extra))
             ops.append({'op': 'set', 'h': h, 'attr': kw, 'part': 'value', 'value': shared})
+    return {'sul': {'max_record_length': 8192}, 'ops': ops, 'write': {}}
+
+
+def refused_origin_spec(case):
+    bad = case['refused_first_origin']
+    kwb = {'creation_time': 'not a date'} if bad == 'creation_time' else {'well_id': 5} if bad == 'well_id' else {}
+    rej = S.op_origin('RJ', 5 if bad == 'name' else 'REFUSED', **kwb)
+    rej['expect'] = 'raise'
+    ok = S.op_origin('O0', 'ORIGIN', **({'origin_reference': case['retry_ref']} if case['retry_ref'] else {}))
+    ops = [S.op_lf(),
+           S.op_add('channel', 'C', 'CHAN', data=S.arr_spec('uint8', [2], [1, 2])),
+           S.op_add('frame', 'F', 'FRAME', channels=[{'$ref': 'C'}]),
+           S.op_add('zone', 'Z', 'ZONE'), S.op_add('parameter', 'P', 'PARAM', zones=[{'$ref': 'Z'}], values=[1.0]),
+           rej, ok, S.op_add('tool', 'T', 'TOOL', channels=[{'$ref': 'C'}], parameters=[{'$ref': 'P'}])]
     return {'sul': {'max_record_length': 8192}, 'ops': ops, 'write': {}}
 
 
@@ -338,7 +357,10 @@ def run_case(case):
     from mc.props import c18
     if 'reidentify' in case:
         return run_reidentify(case)
-    if 'caller_list' in case:
+    if 'refused_first_origin' in case:
+        sp = refused_origin_spec(case)
+        brief, fam = case, 'refused-first-origin'
+    elif 'caller_list' in case:
         sp = caller_list_spec(case)
         brief, fam = case, 'caller-list'
     elif 'across_sets' in case:
